@@ -188,14 +188,16 @@ def limited(seconds, f, *args):
 
 
 class Ref:
-    def __init__(self, env):
+    def __init__(self, env, eps=0):
         self.env, self.clean, self.big, self.acot0 = env, True, M.mpf(1), False
+        self.k = 1 + M.mpf(eps)     # relative perturbation of every intermediate value (conditioning probe)
 
     def note(self, v):
         if isinstance(v, bool):
             return v
         if not M.isfinite(v):
             raise Undefined('non-finite')
+        v = v * self.k
         if abs(M.im(v)) > M.mpf(10) ** -20 * max(1, abs(v)):
             self.clean = False
         else:
@@ -372,7 +374,7 @@ def oracle_(case, obs):
         return [] if out == seen else [{'key': 'wrong-exception', 'detail': '%s vs %s for %s' % (out, seen, sx(t))}]
     why = unprintable(seen)
     if out.startswith('err:'):
-        if degenerate(t) or degenerate(seen):
+        if degenerate(t) or degenerate(seen) or out in SYMPY_INTERNAL:
             return []
         if out != 'err:ValueError':
             return [{'key': 'wrong-exception', 'detail': '%s raised by doprint for %s' % (out, sx(t))}]
@@ -405,6 +407,14 @@ def oracle_(case, obs):
             want = ref.ev(t)
         except Undefined:
             continue
+        if not isinstance(want, (bool, str)):
+            # ill-conditioned at this point (next to a pole, catastrophic cancellation): double rounding decides
+            try:
+                w2 = Ref(env, 1e-14).ev(t)
+            except Undefined:
+                continue
+            if isinstance(w2, (bool, str)) or abs(w2 - want) > M.mpf(10) ** -10 * ref.big:
+                continue
         kind, got = run_python(out, env)
         if kind == 'exc':
             if ref.clean and got not in ('OverflowError',):
@@ -438,6 +448,7 @@ PRINTABLE1 = ['Abs', 'acos', 'acosh', 'asin', 'asinh', 'atan', 'atanh', 'ceiling
 EXTRA = ['sec', 'csc', 'cot', 'sech', 'csch', 'coth', 'asec', 'acsc', 'acot', 'asech', 'acsch', 'acoth']
 
 
+SYMPY_INTERNAL = ('err:InconsistentAssumptions',)     # raised by SymPy's assumption system on some held trees
 NONFINITE = ('ComplexInfinity', 'NaN', 'Infinity', 'ImaginaryUnit')
 
 
@@ -780,6 +791,8 @@ def compare(case, obs, replies):
         if out.startswith('err:') and degen:
             return None     # e.g. Mul(nan, x): `c < 0` raises TypeError before the printer can reject nan
         return None if out == 'err:' + rep[1] else 'model raises %s, implementation gives %r' % (rep[1], out)
+    if out in SYMPY_INTERNAL:
+        return None
     if out.startswith('err:'):
         return 'implementation %s, model prints %r' % (out, str(rep[1][1]))
     mstr, mshape, mok = str(rep[1][1]), plain(rep[2][1]), rep[3][1] == 'true'
